@@ -47,7 +47,13 @@ fn main() {
                 }
                 i += 1;
             }
-            std::process::exit(props::run_check(&id, tier));
+            // a panic of the harness itself (outside the guarded polls of library code) is a machinery
+            // error with a message, never a silent exit status
+            let code = std::panic::catch_unwind(|| props::run_check(&id, tier)).unwrap_or_else(|_| {
+                eprintln!("MACHINERY: the harness panicked: {}", world::last_panic_text());
+                2
+            });
+            std::process::exit(code);
         }
         "trickle" => {
             let n: usize = args.get(2).and_then(|s| s.parse().ok()).unwrap_or(65536);
